@@ -19,9 +19,16 @@
 #define _GNU_SOURCE
 #include <dlfcn.h>
 #include <sys/resource.h>
+#include <unistd.h>
+/* engine.c arms a 10 s alarm around every call; the functions run here take microseconds, and a
+   translation in which gcc exploited undefined behaviour may loop for ever on every input: cap it */
+static unsigned c20_alarm_secs = 2;
+static unsigned c20_alarm (unsigned s) { return (alarm) (s == 0 ? 0 : c20_alarm_secs); }
+#define alarm(s) c20_alarm (s)
 #define main engine_main_unused
 #include "engine.c"
 #undef main
+#undef alarm
 #include "mir2c/mir2c.h"
 
 static void on_limit (int sig) {
